@@ -2,16 +2,30 @@
 
 package regprocessor
 
-// Tie 1 for C13: extracts, from the source of this package, the lock-operation program of every
-// path through RegProcessor.processBdReq and RegProcessor.ReloadSubnets and writes them as Lean
+// Tie 1 for C13: extracts, from the source of this package, the lock-operation program of every path
+// through every *entry point* of the package that touches a given mutex, and writes them as Lean
 // definitions (CJ/Gen/LockPrograms.lean). Standard library go/ast only.
 //
-// A program is the sequence of operations on RegProcessor.selectorMutex (rlock, runlock, lock,
-// unlock), of evaluations of / assignments to the field RegProcessor.ipSelector (readSel, swapSel)
-// and of calls of Select (select) in execution order along one path; deferred calls are expanded at
-// every function exit in LIFO order; calls of other RegProcessor methods that contain such
-// operations are inlined. Anything the walker cannot order (lock operations in loops, switches,
-// goroutines, stored closures, the mutex escaping) makes the extraction fail rather than guess.
+// The extractor is parameterised by a lock (lpSpec): the mutex field, the field it guards and the
+// method whose calls are recorded. It is run twice: selectorMutex / ipSelector / Select and zmqMutex.
+//
+// Entry points (roots) are all exported functions and methods (plus init / main) of the package whose
+// body, with the calls it makes inlined, contains an operation on the lock: code outside the package
+// cannot name the unexported mutex, so every acquisition happens below one of them. Unexported
+// functions and methods are inlined at their call sites (methods are resolved by the declared type of
+// the receiver expression, functions by name).
+//
+// A program is the sequence of operations on the mutex (rlock, runlock, lock, unlock), of evaluations
+// of / assignments to the guarded field (readSel, swapSel) and of calls of the recorded method (select)
+// in execution order along one path; deferred calls are expanded at every function exit in LIFO order.
+// Anything the walker cannot order (lock operations in loops, switches, goroutines, stored closures,
+// the mutex escaping) makes the extraction fail rather than guess.
+//
+// Coverage obligation: every SelectorExpr in the non-test sources that names the mutex or the guarded
+// field must have been visited from a root, or be an access through a variable that the same function
+// has just constructed (composite literal / new / constructor call: the object is not shared yet).
+// Anything else (an operation in a function that no entry point reaches, behind a method value, in a
+// package-level initialiser) fails the extraction with the list of positions.
 
 import (
 	"bytes"
@@ -27,20 +41,28 @@ import (
 	"testing"
 )
 
-const (
-	lpRecv  = "RegProcessor"
-	lpMutex = "selectorMutex"
-	lpField = "ipSelector"
+type lpSpec struct {
+	mutex string // field name of the mutex
+	field string // field it guards ("" = none)
+	call  string // method whose calls are recorded as `select` ("" = none)
+}
+
+var (
+	lpSelector = lpSpec{mutex: "selectorMutex", field: "ipSelector", call: "Select"}
+	lpZmq      = lpSpec{mutex: "zmqMutex"}
 )
 
 type lpState struct {
 	ops    []string
 	defers [][]string
 	name   []string
+	fams   []int
+	early  bool
 }
 
 func (s lpState) clone() lpState {
-	c := lpState{ops: append([]string(nil), s.ops...), name: append([]string(nil), s.name...)}
+	c := lpState{ops: append([]string(nil), s.ops...), name: append([]string(nil), s.name...),
+		fams: append([]int(nil), s.fams...), early: s.early}
 	for _, d := range s.defers {
 		c.defers = append(c.defers, append([]string(nil), d...))
 	}
@@ -49,29 +71,104 @@ func (s lpState) clone() lpState {
 
 func (s lpState) key() string {
 	var b strings.Builder
-	b.WriteString(strings.Join(s.name, "+") + "|" + strings.Join(s.ops, ",") + "|")
+	fmt.Fprintf(&b, "%s|%v|%v|%s|", strings.Join(s.name, "+"), s.fams, s.early, strings.Join(s.ops, ","))
 	for _, d := range s.defers {
 		b.WriteString(strings.Join(d, ",") + ";")
 	}
 	return b.String()
 }
 
+// lpPath is one path through a root: the structural attributes the driver uses to find the program
+// of a request kind (families whose selection block was entered, early exit or straight through to
+// the last statement of every function on the way) and the operations. The name (branch labels) is
+// informational only.
 type lpPath struct {
-	name []string
-	ops  []string
+	root  string
+	name  []string
+	fams  []int
+	early bool
+	ops   []string
+}
+
+// lpPkg: the parsed non-test sources of the package.
+type lpPkg struct {
+	fset  *token.FileSet
+	files []*ast.File
+	// "Type.method" for methods, ".func" for package-level functions
+	funcs map[string]*ast.FuncDecl
+	keys  []string
+}
+
+func lpLoad(dir string) (*lpPkg, error) {
+	pk := &lpPkg{fset: token.NewFileSet(), funcs: map[string]*ast.FuncDecl{}}
+	files, _ := filepath.Glob(filepath.Join(dir, "*.go"))
+	sort.Strings(files)
+	for _, f := range files {
+		if strings.HasSuffix(f, "_test.go") {
+			continue
+		}
+		af, err := parser.ParseFile(pk.fset, f, nil, 0)
+		if err != nil {
+			return nil, err
+		}
+		pk.files = append(pk.files, af)
+		for _, d := range af.Decls {
+			fd, ok := d.(*ast.FuncDecl)
+			if !ok || fd.Body == nil {
+				continue
+			}
+			key := "." + fd.Name.Name
+			if fd.Recv != nil {
+				if len(fd.Recv.List) != 1 {
+					continue
+				}
+				key = lpTypeName(fd.Recv.List[0].Type) + "." + fd.Name.Name
+			}
+			if fd.Name.Name == "init" && fd.Recv == nil {
+				key = fmt.Sprintf(".init@%d", fd.Pos()) // there may be several
+			}
+			pk.funcs[key] = fd
+			pk.keys = append(pk.keys, key)
+		}
+	}
+	sort.Strings(pk.keys)
+	return pk, nil
+}
+
+// lpTypeName: the type name of a receiver / parameter type expression (*T, T, T[...]); "" otherwise.
+func lpTypeName(t ast.Expr) string {
+	for {
+		switch v := t.(type) {
+		case *ast.StarExpr:
+			t = v.X
+			continue
+		case *ast.ParenExpr:
+			t = v.X
+			continue
+		case *ast.IndexExpr:
+			t = v.X
+			continue
+		case *ast.Ident:
+			return v.Name
+		}
+		return ""
+	}
 }
 
 type lpEx struct {
-	fset  *token.FileSet
-	funcs map[string]*ast.FuncDecl
-	errs  []string
-	sink  *[]lpPath
-	depth int
-	memo  map[ast.Node]bool
+	pk      *lpPkg
+	spec    lpSpec
+	errs    []string
+	sink    *[]lpPath
+	depth   int
+	memo    map[ast.Node]bool
+	busy    map[*ast.FuncDecl]bool
+	last    []ast.Stmt         // per function being executed: the last statement of its body
+	visited map[token.Pos]bool // SelectorExpr nodes (mutex / field) reached from a root
 }
 
 func (x *lpEx) fail(n ast.Node, msg string) {
-	x.errs = append(x.errs, fmt.Sprintf("%s: %s", x.fset.Position(n.Pos()), msg))
+	x.errs = append(x.errs, fmt.Sprintf("%s: %s", x.pk.fset.Position(n.Pos()), msg))
 }
 
 func lpLockOpOf(method string) string {
@@ -86,6 +183,121 @@ func lpLockOpOf(method string) string {
 		return "unlock"
 	}
 	return ""
+}
+
+func (x *lpEx) isSite(e *ast.SelectorExpr) bool {
+	return e.Sel.Name == x.spec.mutex || (x.spec.field != "" && e.Sel.Name == x.spec.field)
+}
+
+// declType: the declared type name of an identifier that is a receiver or a parameter; "" otherwise.
+func lpDeclType(e ast.Expr) string {
+	id, ok := e.(*ast.Ident)
+	if !ok || id.Obj == nil || id.Obj.Kind != ast.Var {
+		return ""
+	}
+	if f, ok := id.Obj.Decl.(*ast.Field); ok {
+		return lpTypeName(f.Type)
+	}
+	return ""
+}
+
+// callee resolves a call to a function of this package: methods by the declared type of the receiver
+// expression (a receiver or parameter identifier) plus method name, package-level functions by name.
+func (x *lpEx) callee(c *ast.CallExpr) *ast.FuncDecl {
+	switch f := c.Fun.(type) {
+	case *ast.SelectorExpr:
+		if t := lpDeclType(f.X); t != "" {
+			return x.pk.funcs[t+"."+f.Sel.Name]
+		}
+	case *ast.Ident:
+		if f.Obj == nil || f.Obj.Kind == ast.Fun {
+			return x.pk.funcs["."+f.Name]
+		}
+	case *ast.ParenExpr:
+		return x.callee(&ast.CallExpr{Fun: f.X, Args: c.Args})
+	}
+	return nil
+}
+
+// isFresh: e is a local variable that the enclosing function has just constructed — defined by
+// `v := &T{…}`, `v := T{…}`, `v := new(T)`, or `v, … := f(…)` with f a package-level function of this
+// package that takes no parameter of a type with methods in this package (a constructor). Accesses
+// through such a variable happen before the object is shared and carry no lock obligation.
+func (x *lpEx) isFresh(e ast.Expr) bool {
+	id, ok := e.(*ast.Ident)
+	if !ok || id.Obj == nil || id.Obj.Kind != ast.Var {
+		return false
+	}
+	var rhs []ast.Expr
+	idx := -1
+	switch d := id.Obj.Decl.(type) {
+	case *ast.AssignStmt:
+		if d.Tok != token.DEFINE {
+			return false
+		}
+		rhs = d.Rhs
+		for i, l := range d.Lhs {
+			if li, ok := l.(*ast.Ident); ok && li.Obj == id.Obj {
+				idx = i
+			}
+		}
+	case *ast.ValueSpec:
+		rhs = d.Values
+		for i, n := range d.Names {
+			if n.Obj == id.Obj {
+				idx = i
+			}
+		}
+	default:
+		return false
+	}
+	if idx < 0 || len(rhs) == 0 {
+		return false
+	}
+	var r ast.Expr
+	if len(rhs) == 1 {
+		r = rhs[0]
+		if _, isCall := r.(*ast.CallExpr); !isCall && idx != 0 {
+			return false
+		}
+	} else if idx < len(rhs) {
+		r = rhs[idx]
+	} else {
+		return false
+	}
+	if u, ok := r.(*ast.UnaryExpr); ok && u.Op == token.AND {
+		r = u.X
+	}
+	switch v := r.(type) {
+	case *ast.CompositeLit:
+		return true
+	case *ast.CallExpr:
+		if fid, ok := v.Fun.(*ast.Ident); ok {
+			if fid.Name == "new" && fid.Obj == nil {
+				return true
+			}
+			if fid.Obj == nil || fid.Obj.Kind == ast.Fun {
+				if fd := x.pk.funcs["."+fid.Name]; fd != nil {
+					for _, p := range fd.Type.Params.List {
+						if t := lpTypeName(p.Type); t != "" && x.hasMethods(t) {
+							return false
+						}
+					}
+					return true
+				}
+			}
+		}
+	}
+	return false
+}
+
+func (x *lpEx) hasMethods(typ string) bool {
+	for _, k := range x.pk.keys {
+		if strings.HasPrefix(k, typ+".") {
+			return true
+		}
+	}
+	return false
 }
 
 // hasOps: does the subtree contain anything that contributes to a lock program?
@@ -103,34 +315,25 @@ func (x *lpEx) hasOps(n ast.Node) bool {
 		}
 		switch e := m.(type) {
 		case *ast.SelectorExpr:
-			if e.Sel.Name == lpMutex || e.Sel.Name == lpField {
+			if x.isSite(e) && !x.isFresh(e.X) {
 				found = true
 			}
 		case *ast.CallExpr:
-			if se, ok := e.Fun.(*ast.SelectorExpr); ok {
-				if se.Sel.Name == "Select" {
+			if se, ok := e.Fun.(*ast.SelectorExpr); ok && x.spec.call != "" && se.Sel.Name == x.spec.call {
+				found = true
+			}
+			if fd := x.callee(e); fd != nil && !x.busy[fd] {
+				x.busy[fd] = true
+				if x.hasOps(fd.Body) {
 					found = true
 				}
-				if fd, ok := x.funcs[se.Sel.Name]; ok && x.isRecvExpr(se.X) && x.depth < 4 {
-					x.depth++
-					if x.hasOps(fd.Body) {
-						found = true
-					}
-					x.depth--
-				}
+				delete(x.busy, fd)
 			}
 		}
 		return !found
 	})
 	x.memo[n] = found
 	return found
-}
-
-func (x *lpEx) isRecvExpr(e ast.Expr) bool {
-	// a plain identifier (the receiver variable); methods of other values with the same name are
-	// told apart by the receiver type only approximately: the identifier must not be a package name.
-	id, ok := e.(*ast.Ident)
-	return ok && id.Obj != nil
 }
 
 func lpContainsReturn(n ast.Node) bool {
@@ -149,19 +352,21 @@ func lpContainsReturn(n ast.Node) bool {
 
 func (x *lpEx) src(n ast.Node) string {
 	var b bytes.Buffer
-	_ = printer.Fprint(&b, x.fset, n)
+	_ = printer.Fprint(&b, x.pk.fset, n)
 	return b.String()
 }
 
-func (x *lpEx) label(cond ast.Expr) string {
+// label: (informational branch label, address family whose selection block the branch guards or 0).
+// The families are recognised by the protobuf getters / fields of the request (V4Support, V6Support).
+func (x *lpEx) label(cond ast.Expr) (string, int) {
 	s := x.src(cond)
 	switch {
 	case strings.Contains(s, "V4Support"):
-		return "v4"
+		return "v4", 4
 	case strings.Contains(s, "V6Support"):
-		return "v6"
+		return "v6", 6
 	case strings.ReplaceAll(s, " ", "") == "err!=nil":
-		return "err"
+		return "err", 0
 	}
 	var b strings.Builder
 	for _, r := range s {
@@ -169,7 +374,10 @@ func (x *lpEx) label(cond ast.Expr) string {
 			b.WriteRune(r)
 		}
 	}
-	return b.String()
+	if b.Len() > 24 {
+		return b.String()[:24], 0
+	}
+	return b.String(), 0
 }
 
 // expr appends, to every state, the operations of evaluating e (in evaluation order).
@@ -181,12 +389,14 @@ func (x *lpEx) expr(e ast.Node, in []lpState) []lpState {
 	case *ast.CallExpr:
 		if se, ok := v.Fun.(*ast.SelectorExpr); ok {
 			// mutex operation
-			if inner, ok := se.X.(*ast.SelectorExpr); ok && inner.Sel.Name == lpMutex {
+			if inner, ok := se.X.(*ast.SelectorExpr); ok && inner.Sel.Name == x.spec.mutex && !x.isFresh(inner.X) {
 				op := lpLockOpOf(se.Sel.Name)
 				if op == "" {
-					x.fail(v, "unsupported operation on the selector mutex: "+se.Sel.Name)
+					x.fail(v, "unsupported operation on the mutex: "+se.Sel.Name)
 					return in
 				}
+				in = x.expr(inner.X, in)
+				x.visited[inner.Pos()] = true
 				return lpAppendOp(in, op)
 			}
 			// receiver first, then the arguments, then the call itself
@@ -194,44 +404,55 @@ func (x *lpEx) expr(e ast.Node, in []lpState) []lpState {
 			for _, a := range v.Args {
 				in = x.expr(a, in)
 			}
-			if se.Sel.Name == "Select" {
+			if x.spec.call != "" && se.Sel.Name == x.spec.call {
 				return lpAppendOp(in, "select")
 			}
-			if fd, ok := x.funcs[se.Sel.Name]; ok && x.isRecvExpr(se.X) && x.hasOps(fd.Body) {
+			if fd := x.callee(v); fd != nil && x.hasOps(fd.Body) {
 				return x.inline(fd, in)
 			}
+			return in
+		}
+		if _, ok := v.Fun.(*ast.FuncLit); ok {
+			x.fail(v, "immediately invoked closure containing lock operations")
 			return in
 		}
 		in = x.expr(v.Fun, in)
 		for _, a := range v.Args {
 			in = x.expr(a, in)
 		}
+		if fd := x.callee(v); fd != nil && x.hasOps(fd.Body) {
+			return x.inline(fd, in)
+		}
 		return in
 	case *ast.SelectorExpr:
-		if v.Sel.Name == lpMutex {
-			x.fail(v, "the selector mutex is used other than through RLock/RUnlock/Lock/Unlock")
+		if x.isSite(v) && x.isFresh(v.X) {
+			return in
+		}
+		if v.Sel.Name == x.spec.mutex {
+			x.fail(v, "the mutex is used other than through RLock/RUnlock/Lock/Unlock")
 			return in
 		}
 		in = x.expr(v.X, in)
-		if v.Sel.Name == lpField {
+		if x.spec.field != "" && v.Sel.Name == x.spec.field {
+			x.visited[v.Pos()] = true
 			return lpAppendOp(in, "readSel")
 		}
 		return in
 	case *ast.FuncLit:
-		x.fail(v, "closure containing lock or selector operations outside defer")
+		x.fail(v, "closure containing lock operations outside defer")
 		return in
 	case *ast.ParenExpr:
 		return x.expr(v.X, in)
 	case *ast.UnaryExpr:
 		if v.Op == token.AND && x.hasOps(v.X) {
-			x.fail(v, "address of the selector or its mutex taken")
+			x.fail(v, "address of the guarded field or its mutex taken")
 			return in
 		}
 		return x.expr(v.X, in)
 	case *ast.BinaryExpr:
 		if v.Op == token.LAND || v.Op == token.LOR {
 			if x.hasOps(v.Y) {
-				x.fail(v, "lock or selector operation under a short-circuit operator")
+				x.fail(v, "lock operation under a short-circuit operator")
 				return in
 			}
 		}
@@ -260,7 +481,7 @@ func (x *lpEx) expr(e ast.Node, in []lpState) []lpState {
 	case *ast.Ident, *ast.BasicLit:
 		return in
 	}
-	x.fail(e, fmt.Sprintf("unsupported expression form %T with lock or selector operations", e))
+	x.fail(e, fmt.Sprintf("unsupported expression form %T with lock operations", e))
 	return in
 }
 
@@ -287,7 +508,9 @@ func lpDedup(in []lpState) []lpState {
 	return out
 }
 
-func (x *lpEx) terminate(states []lpState, suffix string) {
+// terminate: the states leave the function being executed; early = through a return that is not the
+// last statement of its body.
+func (x *lpEx) terminate(states []lpState, suffix string, early bool) {
 	for _, s := range states {
 		ops := append([]string(nil), s.ops...)
 		for i := len(s.defers) - 1; i >= 0; i-- {
@@ -297,26 +520,38 @@ func (x *lpEx) terminate(states []lpState, suffix string) {
 		if suffix != "" {
 			name = append(name, suffix)
 		}
-		*x.sink = append(*x.sink, lpPath{name: name, ops: ops})
+		*x.sink = append(*x.sink, lpPath{name: name, ops: ops, fams: append([]int(nil), s.fams...), early: s.early || early})
 	}
+}
+
+// run executes a function body from the given states and returns its exits.
+func (x *lpEx) run(body *ast.BlockStmt, in []lpState) []lpPath {
+	var sub []lpPath
+	saved := x.sink
+	x.sink = &sub
+	var last ast.Stmt
+	if n := len(body.List); n > 0 {
+		last = body.List[n-1]
+	}
+	x.last = append(x.last, last)
+	ft := x.stmts(body.List, in, 0)
+	x.terminate(ft, "", false)
+	x.last = x.last[:len(x.last)-1]
+	x.sink = saved
+	return sub
 }
 
 // inline runs the callee on every state; the callee's exits become the caller's continuations.
 func (x *lpEx) inline(fd *ast.FuncDecl, in []lpState) []lpState {
-	if x.depth >= 4 {
-		x.fail(fd, "inlining depth exceeded")
+	if x.depth >= 6 {
+		x.fail(fd, "inlining depth exceeded (recursion?)")
 		return in
 	}
 	var out []lpState
 	for _, s := range in {
-		var sub []lpPath
-		saved := x.sink
-		x.sink = &sub
 		x.depth++
-		ft := x.stmts(fd.Body.List, []lpState{{ops: s.ops, name: s.name}}, 0)
-		x.terminate(ft, "")
+		sub := x.run(fd.Body, []lpState{{ops: s.ops, name: s.name, fams: s.fams, early: s.early}})
 		x.depth--
-		x.sink = saved
 		for _, p := range sub {
 			// a "return" marker of the callee is not an exit of the caller
 			var nm []string
@@ -328,6 +563,8 @@ func (x *lpEx) inline(fd *ast.FuncDecl, in []lpState) []lpState {
 			c := s.clone()
 			c.ops = p.ops
 			c.name = nm
+			c.fams = p.fams
+			c.early = p.early
 			out = append(out, c)
 		}
 	}
@@ -336,18 +573,14 @@ func (x *lpEx) inline(fd *ast.FuncDecl, in []lpState) []lpState {
 
 // deferredOps: the operations a deferred call performs when it runs.
 func (x *lpEx) deferredOps(d *ast.DeferStmt) []string {
-	var body []ast.Stmt
+	var body *ast.BlockStmt
 	if fl, ok := d.Call.Fun.(*ast.FuncLit); ok {
-		body = fl.Body.List
+		body = fl.Body
 	} else {
-		body = []ast.Stmt{&ast.ExprStmt{X: d.Call}}
+		// the arguments were evaluated at the defer statement; only the call itself runs at exit
+		body = &ast.BlockStmt{List: []ast.Stmt{&ast.ExprStmt{X: &ast.CallExpr{Fun: d.Call.Fun}}}}
 	}
-	var sub []lpPath
-	saved := x.sink
-	x.sink = &sub
-	ft := x.stmts(body, []lpState{{}}, 0)
-	x.terminate(ft, "")
-	x.sink = saved
+	sub := x.run(body, []lpState{{}})
 	var progs [][]string
 	seen := map[string]bool{}
 	for _, p := range sub {
@@ -376,13 +609,17 @@ func (x *lpEx) stmts(list []ast.Stmt, in []lpState, nest int) []lpState {
 	return cur
 }
 
+func (x *lpEx) isLast(st ast.Stmt) bool {
+	return len(x.last) > 0 && x.last[len(x.last)-1] == st
+}
+
 func (x *lpEx) stmt(st ast.Stmt, in []lpState, nest int) []lpState {
 	switch v := st.(type) {
 	case *ast.ReturnStmt:
 		for _, r := range v.Results {
 			in = x.expr(r, in)
 		}
-		x.terminate(in, "")
+		x.terminate(in, "", !x.isLast(v))
 		return nil
 	case *ast.DeferStmt:
 		if !x.hasOps(v) {
@@ -409,8 +646,12 @@ func (x *lpEx) stmt(st ast.Stmt, in []lpState, nest int) []lpState {
 			in = x.expr(r, in)
 		}
 		for _, l := range v.Lhs {
-			if se, ok := l.(*ast.SelectorExpr); ok && se.Sel.Name == lpField {
+			if se, ok := l.(*ast.SelectorExpr); ok && x.spec.field != "" && se.Sel.Name == x.spec.field {
+				if x.isFresh(se.X) {
+					continue
+				}
 				in = x.expr(se.X, in)
+				x.visited[se.Pos()] = true
 				in = lpAppendOp(in, "swapSel")
 				continue
 			}
@@ -442,15 +683,18 @@ func (x *lpEx) stmt(st ast.Stmt, in []lpState, nest int) []lpState {
 		}
 		if !ops && nest == 0 {
 			// an exit that does not depend on the lock structure: one extra path, no new branch name
-			x.terminate(in, "return")
+			x.terminate(in, "return", true)
 			return in
 		}
 		// branch
-		lab := x.label(v.Cond)
+		lab, fam := x.label(v.Cond)
 		var yes []lpState
 		for _, s := range in {
 			c := s.clone()
 			c.name = append(c.name, lab)
+			if fam != 0 {
+				c.fams = append(c.fams, fam)
+			}
 			yes = append(yes, c)
 		}
 		out := x.stmts(v.Body.List, yes, nest+1)
@@ -462,21 +706,21 @@ func (x *lpEx) stmt(st ast.Stmt, in []lpState, nest int) []lpState {
 		return out
 	case *ast.ForStmt, *ast.RangeStmt, *ast.SwitchStmt, *ast.TypeSwitchStmt, *ast.SelectStmt:
 		if x.hasOps(v) {
-			x.fail(v, "lock or selector operation inside a loop or switch: not supported by the extractor")
+			x.fail(v, "lock operation inside a loop or switch: not supported by the extractor")
 			return in
 		}
 		if lpContainsReturn(v) {
-			x.terminate(in, "return")
+			x.terminate(in, "return", true)
 		}
 		return in
 	case *ast.GoStmt:
 		if x.hasOps(v) {
-			x.fail(v, "lock or selector operation in a goroutine started here")
+			x.fail(v, "lock operation in a goroutine started here")
 		}
 		return in
 	case *ast.LabeledStmt:
 		if x.hasOps(v) {
-			x.fail(v, "labelled statement with lock or selector operations")
+			x.fail(v, "labelled statement with lock operations")
 			return in
 		}
 		return x.stmt(v.Stmt, in, nest)
@@ -494,79 +738,89 @@ func (x *lpEx) stmt(st ast.Stmt, in []lpState, nest int) []lpState {
 		return in
 	}
 	if x.hasOps(st) {
-		x.fail(st, fmt.Sprintf("unsupported statement form %T with lock or selector operations", st))
+		x.fail(st, fmt.Sprintf("unsupported statement form %T with lock operations", st))
 	}
 	return in
 }
 
-func lpExtract(dir string, method string) ([]lpPath, []string) {
-	fset := token.NewFileSet()
-	x := &lpEx{fset: fset, funcs: map[string]*ast.FuncDecl{}, memo: map[ast.Node]bool{}}
-	files, _ := filepath.Glob(filepath.Join(dir, "*.go"))
-	sort.Strings(files)
-	for _, f := range files {
-		if strings.HasSuffix(f, "_test.go") {
+// lpCoverage: per name (mutex, guarded field) the number of SelectorExpr occurrences in the non-test
+// sources, how many were reached from the roots and how many are accesses through a variable that the
+// same function has just constructed; everything else is reported.
+type lpCov struct {
+	name                   string
+	total, visited, exempt int
+}
+
+func (x *lpEx) coverage() ([]lpCov, []string) {
+	names := []string{x.spec.mutex}
+	if x.spec.field != "" {
+		names = append(names, x.spec.field)
+	}
+	cov := map[string]*lpCov{}
+	for _, n := range names {
+		cov[n] = &lpCov{name: n}
+	}
+	var missing []string
+	for _, af := range x.pk.files {
+		ast.Inspect(af, func(m ast.Node) bool {
+			se, ok := m.(*ast.SelectorExpr)
+			if !ok || !x.isSite(se) {
+				return true
+			}
+			c := cov[se.Sel.Name]
+			c.total++
+			switch {
+			case x.visited[se.Pos()]:
+				c.visited++
+			case x.isFresh(se.X):
+				c.exempt++
+			default:
+				missing = append(missing, fmt.Sprintf("%s: %s is used here, but no path from an exported entry point of the package reaches this expression (coverage obligation of the extractor)",
+					x.pk.fset.Position(se.Pos()), x.src(se)))
+			}
+			return true
+		})
+	}
+	var out []lpCov
+	for _, n := range names {
+		out = append(out, *cov[n])
+	}
+	return out, missing
+}
+
+func lpIsRoot(key string, fd *ast.FuncDecl) bool {
+	n := fd.Name.Name
+	return ast.IsExported(n) || (fd.Recv == nil && (n == "init" || n == "main"))
+}
+
+// lpExtract: the paths through every root of the package for one lock, in order of discovery (roots in
+// sorted order, exits of one root in execution order), duplicates (same root, families, exit kind and
+// operations) removed; the coverage figures; errors.
+func lpExtract(pk *lpPkg, spec lpSpec) ([]lpPath, []lpCov, []string) {
+	x := &lpEx{pk: pk, spec: spec, memo: map[ast.Node]bool{}, busy: map[*ast.FuncDecl]bool{}, visited: map[token.Pos]bool{}}
+	var out []lpPath
+	for _, key := range pk.keys {
+		fd := pk.funcs[key]
+		if !lpIsRoot(key, fd) || !x.hasOps(fd.Body) {
 			continue
 		}
-		af, err := parser.ParseFile(fset, f, nil, 0)
-		if err != nil {
-			return nil, []string{err.Error()}
+		root := strings.TrimPrefix(key, ".")
+		if i := strings.Index(root, "@"); i >= 0 {
+			root = root[:i]
 		}
-		for _, d := range af.Decls {
-			fd, ok := d.(*ast.FuncDecl)
-			if !ok || fd.Recv == nil || len(fd.Recv.List) != 1 || fd.Body == nil {
+		seen := map[string]bool{}
+		for _, p := range x.run(fd.Body, []lpState{{}}) {
+			k := fmt.Sprintf("%v|%v|%s", p.fams, p.early, strings.Join(p.ops, ","))
+			if seen[k] {
 				continue
 			}
-			t := fd.Recv.List[0].Type
-			if st, ok := t.(*ast.StarExpr); ok {
-				t = st.X
-			}
-			if id, ok := t.(*ast.Ident); ok && id.Name == lpRecv {
-				x.funcs[fd.Name.Name] = fd
-			}
+			seen[k] = true
+			p.root = root
+			out = append(out, p)
 		}
 	}
-	fd, ok := x.funcs[method]
-	if !ok {
-		return nil, []string{"method " + lpRecv + "." + method + " not found"}
-	}
-	var paths []lpPath
-	x.sink = &paths
-	ft := x.stmts(fd.Body.List, []lpState{{}}, 0)
-	x.terminate(ft, "")
-	// canonical: name -> program; equal names with different programs get an index
-	byName := map[string][][]string{}
-	for _, p := range paths {
-		n := strings.Join(p.name, "+")
-		if n == "" {
-			n = "base"
-		}
-		dup := false
-		for _, q := range byName[n] {
-			if strings.Join(q, ",") == strings.Join(p.ops, ",") {
-				dup = true
-			}
-		}
-		if !dup {
-			byName[n] = append(byName[n], p.ops)
-		}
-	}
-	var names []string
-	for n := range byName {
-		names = append(names, n)
-	}
-	sort.Strings(names)
-	var out []lpPath
-	for _, n := range names {
-		for i, ops := range byName[n] {
-			nm := n
-			if i > 0 {
-				nm = fmt.Sprintf("%s#%d", n, i+1)
-			}
-			out = append(out, lpPath{name: []string{nm}, ops: ops})
-		}
-	}
-	return out, x.errs
+	cov, missing := x.coverage()
+	return out, cov, append(x.errs, missing...)
 }
 
 func lpLean(paths []lpPath) string {
@@ -576,43 +830,80 @@ func lpLean(paths []lpPath) string {
 		for _, o := range p.ops {
 			ops = append(ops, "."+o)
 		}
+		var fams []string
+		for _, f := range p.fams {
+			fams = append(fams, fmt.Sprint(f))
+		}
+		name := strings.Join(p.name, "+")
+		if name == "" {
+			name = "base"
+		}
 		sep := ","
 		if i == len(paths)-1 {
 			sep = ""
 		}
-		fmt.Fprintf(&b, "  (%q, [%s])%s\n", p.name[0], strings.Join(ops, ", "), sep)
+		fmt.Fprintf(&b, "  { root := %q, name := %q, fams := [%s], early := %v, ops := [%s] }%s\n",
+			p.root, name, strings.Join(fams, ", "), p.early, strings.Join(ops, ", "), sep)
 	}
 	return b.String()
 }
 
-func TestVerifC13Gen(t *testing.T) {
-	bd, e1 := lpExtract(".", "processBdReq")
-	rl, e2 := lpExtract(".", "ReloadSubnets")
-	if errs := append(e1, e2...); len(errs) > 0 {
-		t.Fatalf("lock-program extraction failed:\n%s", strings.Join(errs, "\n"))
+func lpGenerate(dir string) (string, []string) {
+	pk, err := lpLoad(dir)
+	if err != nil {
+		return "", []string{err.Error()}
 	}
-	if len(bd) == 0 || len(rl) == 0 {
-		t.Fatalf("no paths extracted (processBdReq %d, ReloadSubnets %d)", len(bd), len(rl))
+	sel, cov1, e1 := lpExtract(pk, lpSelector)
+	zmq, cov2, e2 := lpExtract(pk, lpZmq)
+	errs := append(e1, e2...)
+	if len(sel) == 0 {
+		errs = append(errs, "no entry point of the package operates on "+lpSelector.mutex)
+	}
+	if len(zmq) == 0 {
+		errs = append(errs, "no entry point of the package operates on "+lpZmq.mutex)
+	}
+	if len(errs) > 0 {
+		return "", errs
 	}
 	var b strings.Builder
 	b.WriteString("import CJ.Model.RW\n")
 	b.WriteString("/-! GENERATED on every run of `./check C13` by go/harness/C13/zz_verif_c13_gen_test.go from\n")
-	b.WriteString("pkg/regserver/regprocessor/*.go (go/ast) — do not edit.  One entry per path through the method:\n")
-	b.WriteString("(branches taken, operations on `selectorMutex` / `ipSelector` in execution order, `defer` expanded at exit). -/\n")
+	b.WriteString("pkg/regserver/regprocessor/*.go (go/ast) — do not edit.  One entry per path through every exported\n")
+	b.WriteString("entry point of the package that (with its callees inlined) operates on the lock: families whose\n")
+	b.WriteString("selection block is entered, early exit or straight through, operations in execution order (`defer`\n")
+	b.WriteString("expanded at exit).  `coverage`: per name (occurrences in the sources, reached from the entry points,\n")
+	b.WriteString("accesses to an object under construction). -/\n")
 	b.WriteString("namespace CJ.Gen\nopen CJ.RW\n\n")
-	b.WriteString("/-- paths through `RegProcessor.processBdReq` -/\n")
-	b.WriteString("def bdReqPaths : List (String × List Op) := [\n" + lpLean(bd) + "]\n\n")
-	b.WriteString("/-- paths through `RegProcessor.ReloadSubnets` -/\n")
-	b.WriteString("def reloadPaths : List (String × List Op) := [\n" + lpLean(rl) + "]\n\n")
-	b.WriteString("def bdReqPrograms : List (List Op) := bdReqPaths.map (·.2)\n")
-	b.WriteString("def reloadPrograms : List (List Op) := reloadPaths.map (·.2)\n\n")
-	b.WriteString("end CJ.Gen\n")
+	b.WriteString("/-- paths that operate on `RegProcessor.selectorMutex` / `ipSelector` / call `Select` -/\n")
+	b.WriteString("def selectorPaths : List Path := [\n" + lpLean(sel) + "]\n\n")
+	b.WriteString("/-- paths that operate on `RegProcessor.zmqMutex` -/\n")
+	b.WriteString("def zmqPaths : List Path := [\n" + lpLean(zmq) + "]\n\n")
+	b.WriteString("def selectorPrograms : List (List Op) := selectorPaths.map (·.ops)\n")
+	b.WriteString("def zmqPrograms : List (List Op) := zmqPaths.map (·.ops)\n\n")
+	b.WriteString("def coverage : List (String × Nat × Nat × Nat) := [\n")
+	all := append(cov1, cov2...)
+	for i, c := range all {
+		sep := ","
+		if i == len(all)-1 {
+			sep = ""
+		}
+		fmt.Fprintf(&b, "  (%q, %d, %d, %d)%s\n", c.name, c.total, c.visited, c.exempt, sep)
+	}
+	b.WriteString("]\n\nend CJ.Gen\n")
+	return b.String(), nil
+}
+
+func TestVerifC13Gen(t *testing.T) {
+	src, errs := lpGenerate(".")
+	if len(errs) > 0 {
+		t.Fatalf("lock-program extraction failed:\n%s", strings.Join(errs, "\n"))
+	}
 	out := os.Getenv("VERIF_OUT")
 	if out == "" {
 		out = os.TempDir()
 	}
-	if err := os.WriteFile(filepath.Join(out, "LockPrograms.lean"), []byte(b.String()), 0o644); err != nil {
+	if err := os.WriteFile(filepath.Join(out, "LockPrograms.lean"), []byte(src), 0o644); err != nil {
 		t.Fatal(err)
 	}
-	t.Logf("\n%s", b.String())
+	t.Logf("\n%s", src)
 }
